@@ -224,8 +224,7 @@ def resolve_unwindset(outfile, spec):
             fpat, idx = pat.split("#")
         hit = False
         for label, fn in loops:
-            base = re.sub(r"::<.*$", "", fn)
-            if base.endswith(fpat) or fn.endswith(fpat):
+            if fpat in fn:
                 if idx is not None and not label.endswith("." + idx):
                     continue
                 sel.append(f"{label}:{k}")
